@@ -16,7 +16,7 @@ import numpy
 from sim import worldgen
 from . import common
 
-FILL_KEYS = {'_FillValue', 'missing_value', 'coordinates'}
+FILL_KEYS = {'_FillValue', 'missing_value', 'coordinates', 'scale_factor', 'add_offset'}
 
 
 class Space:
